@@ -15,6 +15,7 @@ import (
 	"bytes"
 	"io"
 	"math/big"
+	"strings"
 )
 
 // ---------------------------------------------------------------------------
@@ -337,6 +338,17 @@ type vcBuffer struct {
 func vcBufferOf(b *bytes.Buffer) *vcBuffer      { return nil }
 func vcBufferOfWriter(w io.Writer) *vcBuffer    { return nil }
 func vcModelBufferBytes(b *bytes.Buffer) []byte { return vcBufferOf(b).data }
+
+// strings.Builder: the ghost contents grow by exactly what is written, String returns them.
+func vcBuilderOf(b *strings.Builder) *vcBuffer { return nil }
+
+func vcModelSBWriteString(b *strings.Builder, s string) (int, error) {
+	bf := vcBuilderOf(b)
+	bf.data = append(bf.data, s...)
+	return len(s), nil
+}
+
+func vcModelSBString(b *strings.Builder) string { return string(vcBuilderOf(b).data) }
 
 // io.CopyN(dst, src, n) with src a *bufio.Reader and dst an empty *bytes.Buffer: copies
 // min(n, available) bytes; short of n it reports the error the source ends with (io.EOF
